@@ -268,6 +268,10 @@ Check(st, e) ==
     [] e.a = "cb" -> IF st.left # 0 THEN "callback_rendered_completely"
                      ELSE IF e.frames <= 0 THEN "harness_bad_callback" ELSE ""
     [] e.a = "chunk" -> CheckChunk(st, e)
+    \* a session of the "pickup" family: something linked to a modulator that was created just before it, while the audio
+    \* thread was between two drains of its rings of new resources; seen[j] = the modulator was there the j-th time the
+    \* dependent was processed
+    [] e.a = "pick" -> IF \E j \in 1..Len(e.seen) : ~e.seen[j] THEN "linked_parameter_follows_from_its_first_chunk" ELSE ""
     [] e.a = "panic" -> "no_panic"
     [] OTHER -> ""
 
